@@ -398,12 +398,21 @@ def run_lemma_job(job, tier='quick'):
     return res
 
 
-def _prelude_digest():
-    """the headers a translation unit can include (the verification problem); the Python machinery is not part of the key"""
+_PRELUDE_CORE = ['af_facts.h', 'algo.h', 'opaque.h', 'rngvec.h', 'stream.h', 'stream_stubs.h', 'stubs.h', 'stubs_cb.h', 'stubs_cb2.h', 'stubs_cbfull.h', 'stubs_mpi.h', 'vp.h']
+
+
+def _prelude_digest(text=b''):
+    """the headers a translation unit can include (the verification problem); the Python machinery is not part of the key.
+    The core headers are always part of the key; any other prelude header only when the translation unit includes it."""
     h = hashlib.sha256()
-    for fn in sorted(os.listdir(PRELUDE)):
-        if fn.endswith('.h'):
-            h.update(open(os.path.join(PRELUDE, fn), 'rb').read())
+    for fn in _PRELUDE_CORE:
+        h.update(open(os.path.join(PRELUDE, fn), 'rb').read())
+    extra = sorted(set(m.decode() for m in re.findall(rb'#include "([\w.]+)"', text)) - set(_PRELUDE_CORE))
+    for fn in extra:
+        pth = os.path.join(PRELUDE, fn)
+        if os.path.exists(pth):
+            h.update(fn.encode())
+            h.update(open(pth, 'rb').read())
     return h.hexdigest()
 
 
@@ -416,8 +425,11 @@ def cached(job, tier, key_material, compute):
         return compute()
     h = hashlib.sha256()
     h.update(key_material)
-    h.update(_prelude_digest().encode())
-    h.update(json.dumps({k: v for k, v in job.items() if k not in ('opts',)}, sort_keys=True, default=str).encode())
+    h.update(_prelude_digest(key_material).encode())
+    d = {k: v for k, v in job.items() if k not in ('opts', 'key_props')}
+    if 'key_props' in job:        # the property attribution of a job is not part of the verification problem: a job that gained a
+        d['props'] = job['key_props']   # property keeps the key it was verified under
+    h.update(json.dumps(d, sort_keys=True, default=str).encode())
     h.update(tier.encode())
     key = h.hexdigest()[:32]
     cdir = os.environ.get('VP_CACHE') or os.path.join(OUT, 'cache')
@@ -451,21 +463,33 @@ def run_native_bounded(job, tier):
     src = os.path.join(ROOT, 'replay', job['cpp'] + '.cpp')
     os.makedirs(os.path.join(OUT, 'bin'), exist_ok=True)
     exe = os.path.join(OUT, 'bin', job['name'])
-    cmd = ['g++', '-std=c++11', '-O1', '-I' + NAT.REPO_INC, '-I' + os.path.join(ROOT, 'replay'), src, '-o', exe]
-    r = B1._run(cmd, 300)
-    res['cmds'].append(' '.join(cmd))
-    if r['rc'] != 0:
-        res['status'] = 'compile-error'
-        res['notes'].append((r['out'] + r['err'])[-1500:])
-        return res
-    r = B1._run([exe], 600)
-    res['cmds'].append(exe)
-    out = r['out']
-    m = re.search(r'cases (\d+)', out)
-    ncases = int(m.group(1)) if m else 0
-    st = 'proved' if r['rc'] == 0 else ('failed' if r['rc'] == 1 else 'undecided')
-    res['obligations'].append(dict(id=job['name'], name=job['obligation'], kind='property', status=st, description='%s: %s (%d cases enumerated natively, BOUNDED)' % (job['obligation'], job['what'], ncases),
-                                   loc=os.path.basename(src), solver='native', secs=r['secs'], real='float/double/long double', job=job['name'], trace=None, model=dict(native_output=dict(data=out[-1500:], binary=None))))
+    reals = job.get('reals') or [None]
+    worst = 0
+    for real in reals:
+        cmd = ['g++', '-std=c++11', '-O1', '-I' + NAT.REPO_INC, '-I' + os.path.join(ROOT, 'replay')] + (['-DVP_REAL=' + real] if real else []) + [src, '-o', exe]
+        r = B1._run(cmd, 300)
+        res['cmds'].append(' '.join(cmd))
+        if r['rc'] != 0:
+            res['status'] = 'compile-error'
+            res['notes'].append((r['out'] + r['err'])[-1500:])
+            return res
+        argv = [exe]
+        if job.get('input_obligation'):
+            inp = os.path.join(OUT, job['name'] + '.in.txt')
+            open(inp, 'w').write('obligation %s\n' % job['input_obligation'])
+            argv.append(inp)
+        r = B1._run(argv, 600)
+        res['cmds'].append(' '.join(argv))
+        out = r['out']
+        m = re.search(r'cases (\d+)', out)
+        ncases = int(m.group(1)) if m else 0
+        st = 'proved' if r['rc'] == 0 else ('failed' if r['rc'] == 1 else 'undecided')
+        res['obligations'].append(dict(id=job['name'] + ('.' + real.replace(' ', '_') if real else ''), name=job['obligation'], kind='property', status=st,
+                                       description='%s: %s (%d cases enumerated natively%s, BOUNDED)' % (job['obligation'], job['what'], ncases, ', T = ' + real if real else ''),
+                                       loc=os.path.basename(src), solver='native', secs=r['secs'], real=real or 'float/double/long double', job=job['name'], trace=None,
+                                       model=dict(native_output=dict(data=out[-1500:], binary=None))))
+        worst = max(worst, dict(proved=0, undecided=1, failed=2)[st])
+    st = ['proved', 'undecided', 'failed'][worst]
     res['status'] = st if st != 'proved' else 'proved'
     res['canary'] = dict(seen=True, failed=True)
     res['secs'] = time.time() - t0
